@@ -640,6 +640,15 @@ func (m *model) observeStreams(snap *scheduler.VerifSnapshot, now time.Time) {
 			}
 		}
 		m.seenMsgs[s.id] = len(msgs)
+		// C06: a stream blocked on a task is woken up by its completion;
+		// Send never blocks here, so at quiescence it has its done message.
+		if name, ok := m.streamOp[s.id]; ok && !finished && !s.broken && !s.cancelled && !m.streamDone[s.id] {
+			if t := m.byOp[name]; t != nil && t.final != nil {
+				if op := m.ops[name]; op != nil && !op.removed {
+					w.failf("C06: stream %d is still blocked although task %s completed in step %d with %v", s.id, t.actionID, t.finalStep, t.final)
+				}
+			}
+		}
 		if finished && !m.streamEnded[s.id] {
 			m.streamEnded[s.id] = true
 			s.endStep = w.stepNo
